@@ -342,7 +342,7 @@ pub fn check_renumber(a: &Frag, b: &Frag, from: (U, U), to: (U, U), d: Dispatche
     Ok(Some(e2.len()))
 }
 
-const DISPATCHERS: [Dispatcher; 3] = [Dispatcher::Selector, Dispatcher::Reversed, Dispatcher::Chained];
+const DISPATCHERS: [Dispatcher; 4] = [Dispatcher::Selector, Dispatcher::Reversed, Dispatcher::Chained, Dispatcher::LiteralGuards];
 
 pub struct C11;
 
@@ -419,7 +419,7 @@ impl Check for C11 {
             "fragment family of {n} single-variable code fragments with an abstract slot (7 representative idiom kinds x 3 access modes \
              x {} spellings{}, 4 uses (raw store, one-byte mask, signed compare, account address) of each of 17 environment opcodes and of 3 shared constants, 14 hand-written multi-evidence fragments: address use + zero test, caller stored + signed compare, counter, \
              one-byte flag, length / call target, timestamp + selector-sized field, a path aborted by a jump to an invalid constant target or by INVALID with a \
-             loaded value still on the stack, an internal setter that stores the word it finds on the stack, two reads of a field at the top of the slot that is masked again with a wider mask, a mapping element with a small constant key, a nested mapping with a constant outer key, a dynamic array at constant indices), each composition in strict and in permissive error mode. ALL ordered pairs (A, B) x 3 dispatcher shapes \
+             loaded value still on the stack, an internal setter that stores the word it finds on the stack, two reads of a field at the top of the slot that is masked again with a wider mask, a mapping element with a small constant key, a nested mapping with a constant outer key, a dynamic array at constant indices), each composition in strict and in permissive error mode. ALL ordered pairs (A, B) x 4 dispatcher shapes (selector compare, reversed, chained, literal conditions) \
              (selector compare, reversed layout, two chained conditional jumps) x 2 slot assignments: layout(D(A,B)) must equal \
              layout(D(A)) u layout(D(B)) as entry sets, and layout(D(A)) must only have entries at A's slot. Renumbering: two-fragment programs x all 56 injective maps of their slots \
              into {{0, 1, 2, 77, 2^128+5, 2^255, 2^253, bytes32(\"vault.stakes\")}} (changes PUSH widths, so programs are re-assembled): layout(rho(P)) = rho(layout(P)). \
